@@ -107,6 +107,56 @@ pub fn run(reg: &dyn Registry, ctx: &Ctx) -> Outcome {
         })
         .collect();
 
+    // rare reachable events (found on the reference model): the Debug text at / around the special word
+    // must equal that of another seed at the same position (Rng and core)
+    {
+        let thorough = ctx.tier == crate::evidence::Tier::Thorough;
+        for (ty, evs) in rare_events(reg, ctx.seed, thorough) {
+            let info = ty.info();
+            let b = info.block_words.unwrap_or(1) as u64;
+            let other_seed = alphabet::bg_bytes(ctx.seed, 0x17EE, info.seed_len);
+            let core_name = match info.name {
+                "Hc128Rng" => "Hc128Core",
+                "IsaacRng" => "IsaacCore",
+                _ => "Isaac64Core",
+            };
+            let core = reg.core_types().into_iter().find(|c| c.info().name == core_name);
+            let res: Vec<Option<(String, String, serde_json::Value)>> = evs
+                .par_iter()
+                .flat_map_iter(|e| {
+                    let blk = e.word_index / b * b;
+                    let mut out = Vec::new();
+                    for p in [e.word_index.saturating_sub(1), e.word_index, e.word_index + 1, blk, blk + b] {
+                        let a = SkipMaker { ty, seed: e.seed.clone(), skip_words: p }.make();
+                        let o = SkipMaker { ty, seed: other_seed.clone(), skip_words: p }.make();
+                        if (a.debug(false), a.debug(true)) != (o.debug(false), o.debug(true)) {
+                            out.push(Some((info.name.to_string(), format!("{}: {} words into the stream, Debug is {:?} for seed {} (a block with {}) but {:?} for seed {}", info.name, p, a.debug(false).chars().take(120).collect::<String>(), hex(&e.seed), e.what, o.debug(false).chars().take(120).collect::<String>(), hex(&other_seed)), json!({"kind":"debug-pair","type":info.name,"seed_a":hex(&e.seed),"seed_b":hex(&other_seed),"native_calls":p,"event":crate::rare::describe(e)}))));
+                        } else {
+                            out.push(None);
+                        }
+                    }
+                    if let Some(core) = core {
+                        let blocks = e.word_index / b + 2;
+                        let mut a = core.from_seed(&e.seed);
+                        let mut o = core.from_seed(&other_seed);
+                        for k in 0..blocks {
+                            a.next_u32();
+                            o.next_u32();
+                            if k + 3 >= blocks && (a.debug(false), a.debug(true)) != (o.debug(false), o.debug(true)) {
+                                out.push(Some((core_name.to_string(), format!("{}: after {} blocks Debug is {:?} for seed {} (a block with {}) but {:?} for seed {}", core_name, k + 1, a.debug(false), hex(&e.seed), e.what, o.debug(false), hex(&other_seed)), json!({"kind":"note","event":crate::rare::describe(e)}))));
+                            }
+                        }
+                    }
+                    out.into_iter()
+                })
+                .collect();
+            ctx.add("rare_event_debug_pairs", res.len() as u64);
+            ctx.add("seed_pairs_compared", res.len() as u64);
+            for r in res.into_iter().flatten() {
+                ctx.violation(&format!("C17:{}:seed-dependent", r.0), &r.1, r.2);
+            }
+        }
+    }
     // JitterRng: generators that went through the same call history share the same public read
     // position, whatever their timer delivered and whatever their pool holds: their texts must be equal.
     // Variants per history: three benign timers, timers with long runs of stuck measurements, and
